@@ -17,7 +17,10 @@ Open Scope N_scope.
 (* For EVERY well-formed operation history (any number of create / append / multi-append /
    delete_files / expire / delete_snapshot commits, rolled-back transactions, and transactions whose
    append FAILED with an OS error at any durability call of the marker's or the data file's publish
-   (temp creation, write, fsync, rename) and were rolled back; any number of files, any contents), EVERY prefix
+   (temp creation, write, fsync, rename, DIRECTORY fsync -- wf bounds the failing call by the number of
+   calls whose failure the source lets reach the caller, Gen/GenDurable.v gen_*_fallible = all five: a
+   failed directory fsync is not swallowed; it leaves the file linked, its rename not durable, and the
+   transaction is rolled back) and were rolled back; any number of files, any contents), EVERY prefix
    of its OS-call trace and EVERY power-loss outcome: if a pointer survives and names version v, then
    every file reachable from v is durably present with exactly its intended content (and that is also
    what running processes saw under that name) -- not missing, not empty, not partial. *)
@@ -115,6 +118,53 @@ Proof.
     + exists [Raw 1587; Ref (P 4 7)]. split; [vm_compute; reflexivity|simpl; auto].
     + exists [Raw 829; Ref (P 4 5)]. split; [vm_compute; reflexivity|simpl; auto].
     + exists [Raw 1602; Ref (P 3 3)]. split; [vm_compute; reflexivity|simpl; auto].
+Qed.
+
+(* A failing DIRECTORY fsync is covered (audit finding: the code used to swallow it and go on to advance
+   the pointer; the repaired code raises, Gen/GenDurable.v records that all 5 calls of a publish are
+   fallible, and wf accepts OFail with k = 4): the data file's directory fsync fails (the file stays
+   linked as an orphan, the marker is removed), then a marker's own directory fsync fails (the marker
+   stays), then a further append commits into the same directories.  A 6th failure point does not exist. *)
+Definition ex_dirfail : op := OFail [] (mkPub (P 2 13) [Raw 51]) (Some (mkPub (P 3 14) [Raw 700])) 4.
+Definition ex_mkfail : op := OFail [] (mkPub (P 2 15) [Raw 51]) None 4.
+Definition ex_append2 : commit :=
+  mkCommit [mkItem (mkPub (P 2 16) [Raw 51]) (mkPub (P 3 17) [Raw 769])]
+           [mkItem (mkPub (P 2 18) [Raw 75]) (mkPub (P 4 19) [Raw 1602; Ref (P 3 17)])]
+           [mkItem (mkPub (P 2 20) [Raw 95]) (mkPub (P 4 21) [Raw 829; Ref (P 4 5); Ref (P 4 19)])]
+           (mkPub (P 1 22) [Raw 1587; Ref (P 4 7); Ref (P 4 21)]) [Raw 25; Ref (P 1 22)].
+Definition ex_ops2 := ex_ops ++ [ex_dirfail; ex_mkfail; OCommit ex_append2].
+
+Example C16_dir_fsync_failure_covered :
+  wf ex_ops2 = true /\ length (trace_of ex_ops2) = 131%nat
+  /\ gen_write_file_fallible = length (publish_meta PTR []) /\ gen_data_writer_fallible = length (publish_data PTR [])
+  /\ trace_of [ex_dirfail] = publish_meta (P 2 13) [Raw 51]
+        ++ [Create (T 3 14); Write (T 3 14) [Raw 700]; Fsync (T 3 14); Rename (T 3 14) (P 3 14); Unlink (P 2 13)]
+  /\ trace_of [ex_mkfail] = [Create (T 2 15); Write (T 2 15) [Raw 51]; Fsync (T 2 15); Rename (T 2 15) (P 2 15)]
+  /\ wf [OCommit ex_create; OFail [] (mkPub (P 2 13) [Raw 51]) (Some (mkPub (P 3 14) [Raw 700])) 5] = false.
+Proof. repeat split; vm_compute; reflexivity. Qed.
+
+(* ... and it has to be: had the failure of the data directory's fsync been SWALLOWED (the call sequence
+   goes on without that FsyncDir), the plain drop-all power loss after the acknowledged commit leaves a
+   durable pointer to version P 1 8 whose data file P 3 3 is MISSING; the discipline rejects the trace
+   at the Rename of the manifest that refers to it. *)
+Fixpoint drop_first (f : call -> bool) (l : list call) : list call :=
+  match l with [] => [] | c :: l' => if f c then l' else c :: drop_first f l' end.
+Definition ex_swallowed : list call :=
+  drop_first (fun c => match c with FsyncDir 3 => true | _ => false end) (trace_of [OCommit ex_create; OCommit ex_append]).
+
+Example C16_dir_fsync_is_needed :
+  disciplined ex_swallowed = false
+  /\ first_bad g0 ex_swallowed 0 = Some 27%nat
+  /\ nth 27 ex_swallowed (Mkdir 0) = Rename (T 4 5) (P 4 5)
+  /\ nth 48 ex_swallowed (Mkdir 0) = FsyncDir 0                       (* the pointer publish's last call *)
+  /\ exists s', exec fs0 (firstn 49 ex_swallowed) = Some s'
+       /\ pointer (power_loss s') = Some (P 1 8)
+       /\ content_at (power_loss s') (P 4 5) = Some [Raw 1602; Ref (P 3 3)]
+       /\ content_at (power_loss s') (P 3 3) = None
+       /\ content_at (vol s') (P 3 3) = Some [Raw 769].
+Proof.
+  split; [vm_compute; reflexivity|]. split; [vm_compute; reflexivity|]. split; [vm_compute; reflexivity|]. split; [vm_compute; reflexivity|].
+  eexists. split; [vm_compute; reflexivity|]. vm_compute. auto.
 Qed.
 
 (* The safety notion is not trivially true: drop the data file's Fsync (audit finding #33) and the
